@@ -56,7 +56,7 @@ def central_difference_witness(e, w, gexpr, rng):
 
 def run(rep: vk.Report):
     vk.proof_stage(rep, "C02", extra_trusted=["Interval library enclosure (SemI.evalI_correct) for the numeric channel"])
-    n_expr = 350 if rep.tier == "quick" else 8000
+    n_expr = 150 if rep.tier == "quick" else 8000
     rng = common.rng_for(rep.seed, "C02")
     import optyx.core.autodiff as AD
     from optyx import Variable
@@ -68,13 +68,7 @@ def run(rep: vk.Report):
     errors = {}
     hits = {}
     simp_hits = {"zero": 0, "one": 0, "const": 0}
-    for i in range(n_expr):
-        g = gen.Gen(random.Random(rng.random()), profile=rng.choice(["poly", "smooth", "smooth", "all"]))
-        try:
-            e = g.expr(rng.choice([2, 3, 4]))
-        except Exception as ex:
-            errors["gen:" + type(ex).__name__] = errors.get("gen:" + type(ex).__name__, 0) + 1
-            continue
+    for g, e in common.corpus(rng, rep.tier, n_expr, errors=errors):
         for k, v in g.hits.items():
             hits[k] = hits.get(k, 0) + v
         vs = sorted(e.get_variables(), key=lambda v: v.name)
